@@ -986,9 +986,11 @@ fn simulate(cfg: &Value, reactions: &[&str]) -> Vec<&'static str> {
             }
         }
     }
-    // pad: if the client sends more than the model expects, those requests get info-shaped replies
-    while secs.len() < reactions.len() {
-        secs.push("info");
+    // pad: if the client sends more than the model expects, the next few requests get info-shaped replies (then silence)
+    for _ in 0 .. 3 {
+        if secs.len() < reactions.len() {
+            secs.push("info");
+        }
     }
     secs
 }
